@@ -274,6 +274,11 @@ MODE_SPECS = {
 }
 
 
+MODE_SPECS["C14"] = dict(policies=[TA, BLN], bias="mix", machines=RM_MACHINES_QUICK, modes=["hostile"], props="C14",
+    floors={"hostile_CreateContainer": 1000, "hostile_UpdateContainer": 500, "hostile_Synchronize": 300, "hostile_StopPodSandbox": 200, "hostile_RemovePodSandbox": 200, "hostile_refused": 300, "c14_canaries_ok": 500},
+    rule="hostile histories: a short benign prefix, then well-formed but hostile NRI requests (known/unknown/duplicate IDs, out-of-order lifecycle, containers of unknown pods, Synchronize with dangling references and duplicates, every interpreted annotation key x hostile values, absent optional sub-messages, zero/negative/huge resource values) through the real handlers under recover(); after a third of them a benign canary lifecycle must succeed; distinct by (policy, handler, refused?, request size class)")
+
+
 def check_modes(prop, tier, seed):
     spec = MODE_SPECS[prop]
     res = Result(prop, tier, seed)
